@@ -314,12 +314,20 @@ fn too_complex(line: &str) -> bool {
     let mut operators = 0;
     let mut in_string = false;
     let mut previous = ' ';
-    for c in line.chars() {
+    let mut chars = line.chars().peekable();
+    while let Some(c) = chars.next() {
         if in_string {
             in_string = c != '"';
             continue;
         }
         match c {
+            // a character literal such as ';' or '"' neither starts a comment nor a string
+            '\'' => {
+                let literal = chars.next();
+                if literal.is_some() && literal != Some('\'') && chars.peek() == Some(&'\'') {
+                    chars.next();
+                }
+            }
             '"' => in_string = true,
             ';' => break,
             '/' if previous == '/' => break,
